@@ -424,30 +424,37 @@ Section TextBackends.
   Definition text_line (path : str) (v : val) (now : Z) : item :=
     line_item (path ++ c_space :: prv v ++ c_space :: dec_Z now ++ [c_nl]).
 
-  Definition gr_counter (c : gcfg) (now : Z) (x : fcounter) : list item :=
+  (* one Graphite line before printing: namespace, series name, suffix, source, tags, value *)
+  Record gentry := MkGE { ge_ns : str; ge_name : str; ge_suffix : str; ge_src : str; ge_tags : list str; ge_val : val }.
+  Definition text_bytes (path : str) (v : val) (now : Z) : str :=
+    path ++ c_space :: prv v ++ c_space :: dec_Z now ++ [c_nl].
+  Definition gr_print (c : gcfg) (now : Z) (e : gentry) : str :=
+    text_bytes (prepare_name c (ge_ns e) (ge_name e) (ge_suffix e) (ge_src e) (ge_tags e)) (ge_val e) now.
+
+  Definition gr_counter (c : gcfg) (x : fcounter) : list gentry :=
     if g_legacy c then
-      [ text_line (prepare_name c ns_counts (fc_name x) [] (fc_src x) (fc_tags x)) (VI (fc_value x)) now;
-        text_line (prepare_name c (ns_counters c) (fc_name x) [] (fc_src x) (fc_tags x)) (VF (fc_ps x)) now ]
+      [ MkGE ns_counts (fc_name x) [] (fc_src x) (fc_tags x) (VI (fc_value x));
+        MkGE (ns_counters c) (fc_name x) [] (fc_src x) (fc_tags x) (VF (fc_ps x)) ]
     else
-      [ text_line (prepare_name c (ns_counters c) (fc_name x) n_count (fc_src x) (fc_tags x)) (VI (fc_value x)) now;
-        text_line (prepare_name c (ns_counters c) (fc_name x) n_rate (fc_src x) (fc_tags x)) (VF (fc_ps x)) now ].
-  Definition gr_timer (c : gcfg) (mk : mask) (now : Z) (t : ftimer) : list item :=
+      [ MkGE (ns_counters c) (fc_name x) n_count (fc_src x) (fc_tags x) (VI (fc_value x));
+        MkGE (ns_counters c) (fc_name x) n_rate (fc_src x) (fc_tags x) (VF (fc_ps x)) ].
+  Definition gr_timer (c : gcfg) (mk : mask) (t : ftimer) : list gentry :=
     match ft_hist t with
     | Some h =>
-        map (fun b => text_line (prepare_name c (ns_counters c) (ft_name t) n_histogram (ft_src t)
-                                   (ft_tags t ++ [bucket_tag fmt_s s_plus_inf (fst b)])) (VI (snd b)) now) h
+        map (fun b => MkGE (ns_counters c) (ft_name t) n_histogram (ft_src t)
+                           (ft_tags t ++ [bucket_tag fmt_s s_plus_inf (fst b)]) (VI (snd b))) h
     | None =>
-        map (fun sv => text_line (prepare_name c ns_timers (ft_name t) (fst sv) (ft_src t) (ft_tags t)) (snd sv) now)
-            (enabled_subs mk t)
+        map (fun sv => MkGE ns_timers (ft_name t) (fst sv) (ft_src t) (ft_tags t) (snd sv)) (enabled_subs mk t)
     end.
-  Definition gr_gauge (c : gcfg) (now : Z) (g : fgauge) : list item :=
-    [ text_line (prepare_name c ns_gauges (fg_name g) [] (fg_src g) (fg_tags g)) (VF (fg_value g)) now ].
-  Definition gr_set (c : gcfg) (now : Z) (s : fset) : list item :=
-    [ text_line (prepare_name c ns_sets (fs_name s) [] (fs_src s) (fs_tags s))
-        (VI (Z.of_nat (length (fs_members s)))) now ].
+  Definition gr_gauge (g : fgauge) : list gentry :=
+    [ MkGE ns_gauges (fg_name g) [] (fg_src g) (fg_tags g) (VF (fg_value g)) ].
+  Definition gr_set (s : fset) : list gentry :=
+    [ MkGE ns_sets (fs_name s) [] (fs_src s) (fs_tags s) (VI (Z.of_nat (length (fs_members s)))) ].
+  Definition graphite_entries (c : gcfg) (mk : mask) (m : fmap) : list gentry :=
+    concat (map (gr_counter c) (fm_counters m)) ++ concat (map (gr_timer c mk) (fm_timers m))
+    ++ concat (map gr_gauge (fm_gauges m)) ++ concat (map gr_set (fm_sets m)).
   Definition graphite_payload (c : gcfg) (mk : mask) (now : Z) (m : fmap) : list item :=
-    concat (map (gr_counter c now) (fm_counters m)) ++ concat (map (gr_timer c mk now) (fm_timers m))
-    ++ concat (map (gr_gauge c now) (fm_gauges m)) ++ concat (map (gr_set c now) (fm_sets m)).
+    map (fun e => line_item (gr_print c now e)) (graphite_entries c mk m).
 
   Definition so_counter (now : Z) (x : fcounter) : list item :=
     let nk := compose_metric_name (fc_name x) (fc_key x) in
